@@ -96,6 +96,13 @@ pub fn generate(seed: u64, tier: Tier, count: u64, out: &str) -> std::io::Result
                 };
                 tags.push(tag);
                 let bytes = data.expand();
+                // every 5th encoder case: the input is made to end at the physical end of the window buffer
+                let fit: Option<i64> = if opts.dict_size <= 65_536 && r.below(4) == 0 {
+                    tags.push("window_fit");
+                    Some([0i64, 0, 0, -1, 1, 2][r.below(6) as usize])
+                } else {
+                    None
+                };
                 let bias = if r.below(3) == 0 && !bytes.is_empty() {
                     tags.push("renormalisation");
                     let k = r.below(bytes.len() as u64) as i64;
@@ -103,11 +110,17 @@ pub fn generate(seed: u64, tier: Tier, count: u64, out: &str) -> std::io::Result
                 } else {
                     0
                 };
-                let unit = if r.below(3) == 0 { r.below(opts.dict_size as u64 * 2 + 1) } else { 0 };
+                let unit = if fit.is_some() {
+                    0
+                } else if r.below(3) == 0 { r.below(opts.dict_size as u64 * 2 + 1) } else { 0 };
                 let ws = [1u64 << 30, 4096, 1000, 77][r.below(4) as usize];
                 let rs = [65_536u64, 4096, 7, 1][r.below(4) as usize];
-                json!({"id": id, "kind": "enc", "framing": framing, "opts": opts_json(&opts), "bias": bias, "unit": unit,
-                       "write_size": ws, "read_size": rs, "data": hex(&bytes)})
+                let mut c = json!({"id": id, "kind": "enc", "framing": framing, "opts": opts_json(&opts), "bias": bias, "unit": unit,
+                       "write_size": ws, "read_size": rs, "data": hex(&bytes)});
+                if let Some(d) = fit {
+                    c["fit"] = json!(d);
+                }
+                c
             }
             // decoder cases on damaged streams
             5..=8 => {
